@@ -290,7 +290,9 @@ def run(ctx, drv, cap=None):
     ctx.rule = ("inputs = generated code bases (shared generator, 1-3 platforms, 1-4 translation units each, headers included "
                 "several times) with a known set of dangling quote/angle includes in reached and unreached branches, unknown "
                 "directives mixed with #line/#warning/#error, database entries for missing files, unknown compilers and unknown "
-                "options; plus fully honoured code bases. Non-trivial = distinct code base whose expected events span at least two "
+                "options, computed dangling includes (the form is known only after expansion), build-directory entries whose file is missing there "
+                "although a file of the same relative path exists under the root; plus fully honoured code bases; the command line is also run "
+                "with -v / -v -v / --debug (the totals must not change). Non-trivial = distinct code base whose expected events span at least two "
                 "categories including an unresolved include.")
     ctx.assumptions += [
         "expected include events come from an independent reference preprocessor; for a macro redefined with a different body "
